@@ -241,6 +241,26 @@ func run(s *kernel.Sim, c *scen.Case) {
 			return
 		}
 	}
+	// the policy text embedded in the claim id, parsed back, says what the minter was asked for
+	if pol, err := security.ImportSecSessionInfo(security.ParseClaimIDStrict(claim).SecSessionInfo()); err != nil {
+		s.Violate("policy-roundtrip", "parse", fmt.Sprintf("%s: the embedded session info does not parse: %v", desc, err))
+		return
+	} else {
+		wantC := opts.CryptoMethods
+		if wantC == "" {
+			wantC = "AES"
+		}
+		if v, _ := pol.EvaluateAttrString("CryptoMethods"); v != wantC {
+			s.Violate("policy-roundtrip", "CryptoMethods", fmt.Sprintf("%s: minted with cipher list %q, the embedded policy reads back %q", desc, wantC, v))
+			return
+		}
+		if txt, err := security.ExportSecSessionInfo(pol); err == nil {
+			if pol2, err := security.ImportSecSessionInfo(txt); err != nil || pol2.String() != pol.String() {
+				s.Violate("policy-roundtrip", "render-parse", fmt.Sprintf("%s: %q renders to %q which parses to %v (%v)", desc, pol.String(), txt, pol2, err))
+				return
+			}
+		}
+	}
 	// the public form never contains the secret
 	secret := security.ParseClaimIDStrict(claim).SecSessionKey()
 	if secret == "" || strings.Contains(minted.PublicClaimID(), secret) || !strings.HasPrefix(claim, strings.TrimSuffix(minted.PublicClaimID(), "...")) {
@@ -380,6 +400,15 @@ func run(s *kernel.Sim, c *scen.Case) {
 			}
 		}
 		w.sleep(time.Until(mintedAt.Add(lifetime + 2*time.Second)))
+		// (looked at before any further dial: a refused resumption makes the dialer drop its entry)
+		if _, ok := A.cache.Lookup(sid); ok {
+			s.Violate("expiry-not-in-lockstep", "minter-still-has-it", desc+": the announced lifetime has passed, the importer has dropped the session, the minter still holds it (its expiry moved when the session was used)")
+			return
+		}
+		if _, ok := B.cache.Lookup(sid); ok {
+			s.Violate("expiry-not-in-lockstep", "importer-still-has-it", desc)
+			return
+		}
 		r1 := w.dial(B, A, sid, 443)
 		r2 := w.dial(A, B, sid, 444)
 		for i, r := range []*xres{r1, r2} {
